@@ -221,7 +221,7 @@ impl Check for HostileCheck {
         }
     }
     fn fixed_cases(&self) -> u64 {
-        2 * n_packets() + n_au()
+        2 * n_packets() + n_au() + N_LONG
     }
     fn required(&self, _tier: Tier) -> Vec<&'static str> {
         vec!["fault:truncate", "fault:field_mutation", "fault:bit_flip", "fault:garbage", "sigmf_archive_fault", "sigmf_meta_fault", "hostile_floats", "sigmf_err_returned"]
@@ -251,6 +251,9 @@ impl Check for HostileCheck {
                     run_packet_block("Wpcr", Box::new(b), p, NcOut::new(o, ser_vec::<f32>), desc, &solo, ctx)
                 }
             });
+        }
+        if sel >= nfixed - N_LONG && sel < nfixed {
+            return long_constant_run(sel - (nfixed - N_LONG), &solo, ctx);
         }
         if sel < nfixed {
             // Enumerated AU headers.
@@ -651,6 +654,79 @@ fn sigmf_archive_fault(src: &mut Src, ctx: &mut RunCtx, solo: &Solo) -> RunResul
                 }
             }
             ctx.tolerate(Violation::new("C15:sigmf-archive:no-eof", format!("SigMFSource on archive fault {fault}: no EOF after 2000 calls")))
+        }
+    }
+}
+
+/// Clock-recovery blocks keep sample positions in f32, which stops counting at
+/// 2^24: more than 2^24 samples without a sign change (silence, a constant),
+/// then transitions on consecutive samples.
+const N_LONG: u64 = 6;
+
+fn long_constant_run(i: u64, solo: &std::sync::Arc<Solo>, ctx: &mut RunCtx) -> RunResult {
+    use rustradio::block::BlockRet;
+    use rustradio::stream::new_stream;
+    let level = [0.0f32, 1.0, -1.0][(i % 3) as usize];
+    let zc = i / 3 == 1;
+    let name = if zc { "ZeroCrossing" } else { "SymbolSync" };
+    let desc = format!("{name}: {} samples of {level}, then 64 alternating +-1", (1usize << 24) + 4096);
+    ctx.nontrivial = true;
+    ctx.hash.add(0x10c0 + i);
+    ctx.count("long_run_without_sign_change");
+    ctx.ev(|| desc.clone());
+    if ctx.sample.is_none() {
+        ctx.sample = Some(json!({"block": name, "input": desc}));
+    }
+    let total: usize = (1 << 24) + 4096;
+    let r = solo.with(|| {
+        catch(|| -> Result<usize, String> {
+            let (w, r) = new_stream::<f32>();
+            let (mut b, o): (Box<dyn Block>, rustradio::stream::ReadStream<f32>) = if zc {
+                let (b, o) = ZeroCrossing::new(r, 5.2083335, 0.5);
+                (Box::new(b), o)
+            } else {
+                let (b, o) = SymbolSync::new(r, 36.75, 0.5, Box::new(rustradio::symbol_sync::TedZeroCrossing::new()), Box::new(rustradio::iir_filter::IirFilter::new(&[0.1, 0.9])));
+                (Box::new(b), o)
+            };
+            let mut fed = 0usize;
+            let mut outn = 0usize;
+            let end = total + 64;
+            let mut guard = 0u64;
+            while fed < end {
+                {
+                    let mut wb = w.write_buf().map_err(|e| e.to_string())?;
+                    let n = wb.len().min(end - fed);
+                    for (k, p) in wb.slice().iter_mut().take(n).enumerate() {
+                        let at = fed + k;
+                        *p = if at < total { level } else if (at - total) % 2 == 0 { 1.0 } else { -1.0 };
+                    }
+                    wb.produce(n, &[]);
+                    fed += n;
+                }
+                loop {
+                    guard += 1;
+                    if guard > 10_000_000 {
+                        return Err("no end after 10M work() calls".into());
+                    }
+                    let again = matches!(b.work().map_err(|e| e.to_string())?, BlockRet::Again);
+                    let (rb, _) = o.read_buf().map_err(|e| e.to_string())?;
+                    let n = rb.len();
+                    outn += n;
+                    rb.consume(n);
+                    if !again {
+                        break;
+                    }
+                }
+            }
+            Ok(outn)
+        })
+    });
+    match r {
+        Err(p) => ctx.tolerate(Violation::new(format!("C15:{name}:panic:{}", p.site()), format!("{desc}: work() panicked: {} at {}", p.msg, p.loc))),
+        Ok(Err(e)) => ctx.tolerate(Violation::new(format!("C15:{name}:long-run-error"), format!("{desc}: {e}"))),
+        Ok(Ok(n)) => {
+            ctx.ev(|| format!("{n} output samples"));
+            Ok(())
         }
     }
 }
